@@ -8,7 +8,7 @@ CONSTANTS
   NoSync = FALSE
   MaxFaults = 0
   FaultCalls = {}
-  RetryOn = FALSE
+  RetryOn = TRUE
   CrashOn = TRUE
   BugPrecedence = FALSE
   BugLockLeak = FALSE
